@@ -132,7 +132,7 @@ def game_fields_task(task):
     A = tuple(pk.Automation)
     for code, cls in HandHistory.game_types.items():
         bad = []
-        for trial, (trim, scale) in enumerate(((True, 1), (False, 3), (True, Decimal('1.5')))):
+        for trial, (trim, scale) in enumerate(((True, 1), (False, 3), (True, Decimal('1.5')), (False, Decimal('2E+1')))):
             n = 3
             stacks = [1000 * scale, 2000 * scale, 1500 * scale]
             antes = {0: 1 * scale, 1: 2 * scale}
@@ -169,6 +169,14 @@ def game_fields_task(task):
                         bad.append((trial, 'after save/load', fld, getattr(state, fld), getattr(s3, fld)))
                 if hh3.dumps() != text:
                     bad.append((trial, 'saved again differs'))
+                # the kind of number survives too (an int pot is split with an odd chip, a decimal one exactly)
+                # (a Decimal whose text is a plain integer, e.g. Decimal('20'), is written as 20 and read as an int by design of the format;
+                # one whose text has a point or an exponent must stay a non-integer)
+                for fld in ('antes', 'blinds_or_straddles', 'starting_stacks'):
+                    a, b_ = getattr(state, fld), getattr(s3, fld)
+                    for x, y in zip(a, b_):
+                        if not isinstance(x, int) and ('E' in str(x) or '.' in str(x)) and isinstance(y, int):
+                            bad.append((trial, 'after save/load a decimal amount became an int', fld, repr(x), repr(y)))
             except Exception as e:     # noqa
                 bad.append((trial, 'save/load', repr(e)))
             for fld in ('small_bet', 'big_bet', 'min_bet'):
